@@ -32,9 +32,9 @@ SPEC = dict(
                  'g++ 12 ASan/UBSan/LSan report what they claim to report; the misaligned link pointer in MiniMessageGateway.c is allow-listed (DESIGN.md 2.1)'],
     legs=[
         Leg('regress', 'h_wire', 'asan', opts=_o(mode='regress'), quick=5, thorough=5, workers=1, leaks=True, min_cases=5),
-        Leg('wire', 'h_wire', 'asan', opts=_o(mode='wire'), quick=300000, thorough=9000000, workers=16, leaks=True),
+        Leg('wire', 'h_wire', 'asan', opts=_o(mode='wire'), quick=200000, thorough=8000000, workers=16, leaks=True),
         Leg('frame', 'h_wire', 'asan', opts=_o(mode='frame'), quick=3200, thorough=96000, workers=16, leaks=True, per_worker_min=10),
-        Leg('memcheck', 'h_wire', 'plain', opts=_o(mode='wire'), quick=1600, thorough=32000, workers=16, valgrind=True),
+        Leg('memcheck', 'h_wire', 'plain', opts=_o(mode='wire'), quick=1200, thorough=32000, workers=16, valgrind=True),
     ],
     min_stats={
         'wire': {'py_native_built': 40000, 'py_parsed_cpp_bytes': 40000, 'ref_encoded': 80000, 'ref_decoded': 80000,
